@@ -114,7 +114,9 @@ type SignPlugin struct {
 }
 
 func (p *SignPlugin) GetMetadata(ctx context.Context, req *pf.GetMetadataRequest) (*pf.GetMetadataResponse, error) {
-	rt.Point(rt.Op{Kind: "plugin.metadata"})
+	if d := rt.Point(rt.Op{Kind: "plugin.metadata"}); d.Err != nil {
+		return nil, fmt.Errorf("simulated: plugin process failed: %w", d.Err)
+	}
 	caps := []pf.Capability{pf.CapabilitySignatureGenerator}
 	if p.Envelope {
 		caps = []pf.Capability{pf.CapabilityEnvelopeGenerator}
@@ -126,7 +128,9 @@ func (p *SignPlugin) GetMetadata(ctx context.Context, req *pf.GetMetadataRequest
 }
 
 func (p *SignPlugin) DescribeKey(ctx context.Context, req *pf.DescribeKeyRequest) (*pf.DescribeKeyResponse, error) {
-	rt.Point(rt.Op{Kind: "plugin.describe"})
+	if d := rt.Point(rt.Op{Kind: "plugin.describe"}); d.Err != nil {
+		return nil, fmt.Errorf("simulated: plugin process failed: %w", d.Err)
+	}
 	resp := &pf.DescribeKeyResponse{KeyID: req.KeyID, KeySpec: keySpecName(KindOf(p.Chain.Leaf().Key))}
 	if p.MutateDescribe != nil {
 		p.MutateDescribe(resp)
@@ -136,7 +140,9 @@ func (p *SignPlugin) DescribeKey(ctx context.Context, req *pf.DescribeKeyRequest
 
 func (p *SignPlugin) GenerateSignature(ctx context.Context, req *pf.GenerateSignatureRequest) (*pf.GenerateSignatureResponse, error) {
 	p.RawRequests = append(p.RawRequests, req)
-	rt.Point(rt.Op{Kind: "plugin.sign"})
+	if d := rt.Point(rt.Op{Kind: "plugin.sign"}); d.Err != nil {
+		return nil, fmt.Errorf("simulated: plugin process failed: %w", d.Err)
+	}
 	sig, err := RawSign(p.Chain.Leaf().Key, req.Payload)
 	if err != nil {
 		return nil, err
@@ -153,7 +159,9 @@ func (p *SignPlugin) GenerateSignature(ctx context.Context, req *pf.GenerateSign
 
 func (p *SignPlugin) GenerateEnvelope(ctx context.Context, req *pf.GenerateEnvelopeRequest) (*pf.GenerateEnvelopeResponse, error) {
 	p.EnvRequests = append(p.EnvRequests, req)
-	rt.Point(rt.Op{Kind: "plugin.envelope"})
+	if d := rt.Point(rt.Op{Kind: "plugin.envelope"}); d.Err != nil {
+		return nil, fmt.Errorf("simulated: plugin process failed: %w", d.Err)
+	}
 	if p.EnvelopeFor != nil {
 		return p.EnvelopeFor(req)
 	}
